@@ -1,5 +1,5 @@
 """One function per property: check_<ID>(tier) -> exit code."""
-import os, json, random
+import os, json, random, subprocess
 from common import *
 import build, certs, engine, probes, gen, cap as capmod
 import check_engine as ce
@@ -324,7 +324,11 @@ def run_lines(exe, lines, prefix):
     d = cache_dir('problems')
     pth = os.path.join(d, 'cmd_%d_%s.txt' % (os.getpid(), prefix))
     open(pth, 'w').write('\n'.join(lines) + '\n')
-    r = sh([exe, pth], check=False, timeout=1200)
+    try:
+        r = sh([exe, pth], check=False, timeout=120 + len(lines) // 20)
+    except subprocess.TimeoutExpired as e:
+        class R: pass
+        r = R(); r.stdout = (e.stdout.decode('utf8', 'replace') if isinstance(e.stdout, bytes) else (e.stdout or '')); r.returncode = 'timeout'
     os.remove(pth)
     out = {}
     for ln in r.stdout.split('\n'):
@@ -333,6 +337,12 @@ def run_lines(exe, lines, prefix):
             out[i] = rest
     if r.returncode != 0:
         out['__crash__'] = 'exit %s: %s' % (r.returncode, r.stdout[-500:])
+        # the first command without a result killed the process
+        ids = [ln.split(' ')[1] for ln in lines if ln.startswith(prefix + ' ')]
+        for i in ids:
+            if i not in out:
+                out['__crashed_at__'] = i
+                break
     return out
 
 
@@ -452,7 +462,15 @@ def check_C05(tier):
     nbad = 0
     for b, exe in exes.items():
         out = run_lines(exe, lines, 'R')
+        if '__crashed_at__' in out:
+            ci = int(out['__crashed_at__'][1:])
+            kind, L, off = grid[ci]
+            nbad += 1
+            res.violation(None, 'Source::read (%s/%s) crashed the process on a %s source of length %d at offset %d' % (b[0], b[1], 'str' if kind == 's' else '[u8]', L, off),
+                          dict(featureset=b[0], profile=b[1], kind=kind, len=L, offset=off, observed=out.get('__crash__')))
         for i, (kind, L, off) in enumerate(grid):
+            if '__crashed_at__' in out and i >= int(out['__crashed_at__'][1:]):
+                break
             toks = out.get('g%d' % i, '').split()
             for j, sz in enumerate(sizes):
                 m = model[i * len(sizes) + j]
@@ -1163,6 +1181,14 @@ C11_BYTE_CASES = [
     ([('b1', b'\xce', False), ('b2', b'(?&b1)\xbb', False)], ['(?&b2)x']),
     ([('mix', 'é', True), ('raw', b'\xc3', False)], ['(?&mix)a', '(?&raw)\\xa9']),
 ]
+# str-literal subpatterns keep their own Unicode mode in a byte-mode definition
+C11_BYTE_UNICODE_CASES = [
+    ([('word', '\\w+', True)], ['(?&word)', '=(?&word)']),
+    ([('any', '.', True)], ['<(?&any)>']),
+    ([('notq', '[^q]', True)], ['x(?&notq)y']),
+    ([('dig', '\\d', True), ('dd', '(?&dig)(?&dig)', True)], ['#(?&dd)']),
+    ([('sp', '\\s+', True)], ['a(?&sp)b']),
+]
 C11_UNDEFINED = [
     ([('a', 'x', True)], '(?&b)'),
     ([('a', '(?&later)', True), ('later', 'y', True)], '(?&a)'),
@@ -1181,7 +1207,7 @@ def check_C11(tier):
     for subs, pats in C11_CASES:
         for p in pats:
             cases.append((subs, p, True))
-    for subs, pats in C11_BYTE_CASES:
+    for subs, pats in C11_BYTE_CASES + C11_BYTE_UNICODE_CASES:
         for p in pats:
             cases.append((subs, p, False))
     # random combinations of references inside small contexts
